@@ -16,13 +16,13 @@ CHECKS = {
 }
 CHECKS["C02"] = ("translation_validation",
          "stage-2 compiler built from cproc's own IL (il2c backend substitute); merged run log of stage 1 and stage 2 validated by TLC against the Stage.tla monitor",
-         "Stage 1 (gcc-built) and stage 2 (cproc-built, IL lowered by il2c+gcc) are run on the compiler's own sources x3 targets (bootstrap fixed point), the corpus, -E runs, pooled generator inputs of the other properties and Mutate.tla token-level mutants (error paths); TLC accepts the merged ndjson log only if stdout/stderr/status are a function of (input,target,mode) and status is 0/1/2.",
+         "Stage 1 (gcc-built) and stage 2 (cproc-built, IL lowered by il2c+gcc) are run on the compiler's own sources x3 targets (bootstrap fixed point), the corpus, -E runs, a committed corpus of the inputs every other property's generator feeds to the compiler (corpus/pool.tar.xz, 105k inputs; quick: 1 500 per property), the exhaustive one-edit neighbourhood of a grammar tour (Mutate.tla Exhaustive/EditAll, 24k inputs in quick) and Mutate.tla token-level mutants (error paths); TLC accepts the merged ndjson log only if stdout/stderr/status are a function of (input,target,mode) and status is 0/1/2.",
          "trusted: il2c.py + gcc as backend substitute for the missing qbe (il2c is bound to QbeMachine.tla by C01); equality observed on explored inputs only, not proved for all inputs",
          "DESIGN.md §5 C02")
 CHECKS["C01"] = ("model_checking",
          "TLA+ abstract machine for C (CSem.tla) and small-step IL semantics (QbeMachine.tla) run by TLC on the real compiler's output; Refine.tla evaluates observational agreement; OpCases.tla enumerates single operations exhaustively; il2c executes the IL at volume and is bound to QbeMachine each run",
-         "Expected behaviour of every generated program comes from CSem.tla inside TLC (integer operators/conversions/promotions, bit-fields, arrays, pointers, structs, control flow, calls). The IL cproc prints is executed by QbeMachine.tla (memory-safety of every load/store checked) for a sample and natively through il2c+ASan for all; OpCases.tla covers every operator x integer type pair x boundary value pair with defined behaviour.",
-         "trusted: TLC; il2c.py+gcc for volume (cross-checked against QbeMachine.tla on the sampled programs every run); the spec is audited by gcc and clang -fsanitize=undefined on rendered programs (disagreement = machinery error). Floating point, unions, goto, varargs, long double are outside MiniC.",
+         "Expected behaviour of every generated program comes from CSem.tla inside TLC (integer operators/conversions/promotions, integral floating values, bit-fields, arrays, pointers, nested structs, arrays of structs, unions used member-wise, string literals, VLAs and variably modified typedefs, alloca, sequenced side effects, control flow incl. goto, calls incl. variadic and function pointers). The IL cproc prints is executed by QbeMachine.tla (memory-safety of every load/store checked) for a sample and natively through il2c+ASan for all; OpCases.tla covers every operator x integer type pair x boundary value pair with defined behaviour.",
+         "trusted: TLC; il2c.py+gcc for volume (cross-checked against QbeMachine.tla on the sampled programs every run); the spec is audited by gcc and clang -fsanitize=undefined on rendered programs (disagreement = machinery error). Floating values are integral and exactly representable only (FloatInt.tla); unions are modelled member-wise (no type punning); long double, volatile, _Atomic, anonymous members are outside MiniC.",
          "DESIGN.md §5 C01")
 CHECKS["C07"] = ("model_checking",
          "TLA+ refinement of init.c's cursor machine and qbe.c's data/automatic emitters against a declarative C11 6.7.9 image (Init.tla); exhaustive initializer token sequences replayed into cproc-qbe; H5 trace validation (Trace_Init.tla)",
